@@ -17,7 +17,8 @@ QuickSets ==
    s2 |-> <<"tag1", "tag2", "urlT", "tagged", "t1">>,
    s3 |-> <<"urlA", "sim", "rpc", "srv", "info">>,
    s4 |-> <<"mac", "useM", "t4", "e1", "urlAI">>,
-   s5 |-> <<"tag1", "tag2", "urlT", "getB", "t1">>]
+   s5 |-> <<"tag1", "tag2", "urlT", "getB", "t1">>,
+   sA |-> <<"pathX", "pathXY", "t1", "getB", "srv">>]
 DeepSets ==
   [s6 |-> <<"t1", "reqT", "tAny", "srv2", "srv", "infoV">>,
    s7 |-> <<"mac", "mac2", "t1", "bodyT", "tag1", "pathM">>,
